@@ -782,18 +782,51 @@ def counter_diff(exp, got, limit=4):
             "unexpected": [[list(map(str, k)) if isinstance(k, tuple) else k, v] for k, v in extra]}
 
 
-def timing_class(traits, exp_ops, act, pre_read):
-    """names the class of a timing deviation: by the trait of the INPUT that is known to break the copies (read from
-    the real input before unrolling), else by the kind of the earliest deviating operation"""
-    exp_c = Counter((s, a, b) for s, a, b in exp_ops)
-    act_c = Counter((s, a, b) for s, a, b in act)
-    bad = sorted((act_c - exp_c).elements(), key=lambda t: (t[1], t[2], str(t[0])))
-    kinds = sorted({t[0][0] for t in bad})
-    if traits:
-        cls = sorted(traits)[0]     # one class per witness (barrier before value-equal siblings), so that the set of keys stays small and stable
-    else:
-        cls = f"first-deviating-kind-{bad[0][0][0] if bad else 'none'}"
-    return cls + (":after-reading-operations" if pre_read else ""), kinds
+def deviating_kinds(exp_ops, act):
+    """kinds of the operations whose (signature, start, end) is not expected, earliest first: goes into the witness record,
+    never into the key"""
+    bad = sorted((Counter(act) - Counter(exp_ops)).elements(), key=lambda t: (t[1], t[2], str(t[0])))
+    out = []
+    for t in bad:
+        if t[0][0] not in out:
+            out.append(t[0][0])
+    return out
+
+
+def base_timing_class(traits):
+    """class of a timing failure by its CAUSE, as far as the input (read before unrolling) shows one"""
+    if "copied-value-equal-operations" in traits:
+        return "copied-value-equal-operations"
+    if "copied-barrier-with-non-default-relation" in traits:
+        return "copied-barrier-with-non-default-relation"
+    return "other"
+
+
+# key strings that are recorded findings must stay as they are
+RECORDED_PRE_READ_VALUE_EQUAL = "copied-value-equal-siblings:after-reading-operations"
+
+
+def timing_class(program, traits, pre_read):
+    """the class of a timing failure depends on its cause, never on which operation kind happens to deviate:
+    * the program fails ONLY when circuit.operations is read before unrolling (the same program without that read
+      satisfies the rule; decided by really running it): cause = the hand-down of one link object by that read;
+      sub-cause from the input: operations that compare equal (the recorded key), a copied barrier, other;
+    * the program fails without the pre-read as well: the class of that run (value-equal operations / copied barrier /
+      other)."""
+    if not pre_read:
+        return base_timing_class(traits)
+    twin = json.loads(json.dumps(program))
+    twin.pop("pre_read", None)
+    sub = Stats()
+    check_program(twin, sub)
+    again = sorted(k for k in sub.failures if k.startswith(f"{PROP}:repeat:timing:"))
+    if again:
+        return again[0][len(f"{PROP}:repeat:timing:"):]
+    if "copied-value-equal-operations" in traits:
+        return RECORDED_PRE_READ_VALUE_EQUAL
+    if "copied-barrier-with-non-default-relation" in traits:
+        return "only-after-reading-operations:copied-barrier"
+    return "only-after-reading-operations:other"
 
 
 def _is_barrier_like(op):
@@ -805,8 +838,8 @@ def input_traits(root, declared):
     witness class of a failure, never to decide whether something is a failure.
     * copied-barrier-with-non-default-relation: a Barrier / CoordinateShiftOperation inside content that gets copied
       whose relation is not the default one (FOLLOWED_BY the last listed operation sharing a channel): its copy() drops the link;
-    * copied-value-equal-siblings: two distinct operations in copied content that compare equal (==): the relation
-      transfer table of copy() is keyed by value."""
+    * copied-value-equal-operations: two distinct operations anywhere in copied content (siblings or different nesting
+      levels: copy() shares ONE relation transfer table across the levels) that compare equal (==): that table is keyed by value."""
     traits = set()
 
     def rec(comp, copied):
@@ -830,14 +863,20 @@ def input_traits(root, declared):
                             break
                     if actual != implicit:
                         traits.add("copied-barrier-with-non-default-relation")
-            for x, y in itertools.combinations(nodes, 2):
-                if type(x) is type(y) and x == y:
-                    traits.add("copied-value-equal-siblings")
-                    break
+            copied_ops.extend(nodes)
         for o in nodes:
             if is_composite(o):
                 rec(o, copied)
+    copied_ops = []
     rec(root, False)
+    # value-equal operations: only operations that share one link OBJECT can compare equal (links carry a unique identifier)
+    by_link = {}
+    for o in copied_ops:
+        by_link.setdefault(id(o.relation), []).append(o)
+    for group in by_link.values():
+        if len(group) > 1 and any(type(x) is type(y) and x == y for x, y in itertools.combinations(group, 2)):
+            traits.add("copied-value-equal-operations")
+            break
     return traits
 
 
@@ -1027,7 +1066,7 @@ def check_program(program, stats, verbose=False):
             stats.n["timing"] += 1
             act = [(sig_of(o), rnd(rev.start(o)), rnd(rev.end(o))) for o in ops1]
             if Counter(act) != Counter(exp_ops):
-                cls, kinds = timing_class(traits, exp_ops, act, pre_read)
+                cls, kinds = timing_class(program, traits, pre_read), deviating_kinds(exp_ops, act)
                 try:
                     rep_ok = Counter((sig_of(o), rnd(o.start_time), rnd(o.start_time + o.duration)) for o in ops1) == Counter(exp_ops)
                 except Exception:  # noqa
